@@ -162,16 +162,29 @@ int main(int argc, char* const* argv)
     Item privkey;
     secp256k1_keypair keypair;
     bech32_hrp = ca.m.count('p') ? ca.m['p'] : DEFAULT_ADDR_PREFIX;
+    if (bech32_hrp.empty() || bech32_hrp.size() > 83) abort("invalid address prefix (must be 1..83 characters)");
+    for (char c : bech32_hrp) {
+        // the bech32 encoder asserts on anything but lowercase printable US-ASCII
+        if (c < 33 || c > 126 || (c >= 'A' && c <= 'Z')) abort("invalid address prefix '%s' (lowercase printable ASCII only)", bech32_hrp.c_str());
+    }
 
     bool have_txs = false;
     if (ca.m.count('x') + ca.m.count('i') == 1) abort("provide either both --txin and --tx, or neither");
     if (ca.m.count('x')) {
         have_txs = true;
-        if (!instance.parse_transaction(ca.m['x'].c_str(), false)) {
-            abort("failed to parse transaction");
+        try {
+            if (!instance.parse_transaction(ca.m['x'].c_str(), false)) {
+                abort("failed to parse transaction");
+            }
+            if (!instance.parse_input_transaction(ca.m['i'].c_str())) {
+                abort("failed to parse input transaction");
+            }
+        } catch (std::exception const& ex) {
+            abort("failed to parse transaction data: %s", ex.what());
         }
-        if (!instance.parse_input_transaction(ca.m['i'].c_str())) {
-            abort("failed to parse input transaction");
+        if (instance.tx->vin.size() != 1) {
+            // the taproot signature hash commits to the outputs spent by every input, and only one --txin can be given
+            abort("the transaction has %zu inputs; tap can only generate signature hashes for transactions with exactly one input", instance.tx->vin.size());
         }
         btc_logf("targeting transaction vin at index #%lld\n", instance.txin_index);
     }
